@@ -409,6 +409,27 @@ Section Proofs.
   Qed.
 End Proofs.
 
+(** the correspondence trace (Refresh.refresh_trace: Begin, Refresh, one Step per root sub-plan, End) delivers
+    [fed_exec] of the snapshot installed at the begin, whatever the refresh installs *)
+Lemma proj_steps_end : forall rid k, proj rid (repeat (LStep rid) k ++ [LEnd rid]) = repeat (LStep rid) k ++ [LEnd rid].
+Proof.
+  intros rid k. unfold proj. induction k as [|k IH]; simpl; rewrite Nat.eqb_refl; [reflexivity|]. rewrite IH. reflexivity.
+Qed.
+
+Theorem refresh_trace_delivers_fed_exec : forall c,
+  steps_needed (rc_world c) rpick (rc_g c) (rc_query c) <= rc_steps c ->
+  delivered 0 (gw_run (rc_world c) rpick false (refresh_trace c) (gw_init (rc_g c))) =
+  Some (fed_exec (rc_world c) (rc_g c) rpick false true (rc_query c)).
+Proof.
+  intros c Hk. unfold refresh_trace.
+  apply (request_completes (rc_world c) rpick (rc_g c) [] 0 (rc_query c)
+           (LRefresh (rc_other c) :: repeat (LStep 0) (rc_steps c) ++ [LEnd 0]) (rc_steps c) []).
+  - reflexivity.
+  - change (proj 0 (LRefresh (rc_other c) :: repeat (LStep 0) (rc_steps c) ++ [LEnd 0]))
+      with (proj 0 (repeat (LStep 0) (rc_steps c) ++ [LEnd 0])). apply proj_steps_end.
+  - exact Hk.
+Qed.
+
 (** * Examples and the refutation of the re-reading variant *)
 
 (** two requests and three refreshes interleaved; each request is answered as [fed_exec] of the snapshot that
